@@ -17,11 +17,12 @@ import GSV.Model.Fourier
 import GSV.Model.Validity
 import GSV.Model.Spectral
 import GSV.Model.Grid
+import GSV.Model.Pipe
 open Lean GSV GSV.Proto
 namespace GSV.Model
 
 def modelOps : List (String → Json → Option (Except String Json)) := [
-  Geo.ops, Norm.ops, CovState.ops, Transform.ops, Krige.ops, Gen.ops, Cond.ops, Fit.ops, Heap.ops, Vario.ops, CovFn.ops, LatLon.ops, Fourier.ops, Validity.ops, Spectral.ops, Grid.ops
+  Geo.ops, Norm.ops, CovState.ops, Transform.ops, Krige.ops, Gen.ops, Cond.ops, Fit.ops, Heap.ops, Vario.ops, CovFn.ops, LatLon.ops, Fourier.ops, Validity.ops, Spectral.ops, Grid.ops, Pipe.ops
 ]
 
 def modelOp (op : String) (j : Json) : Option (Except String Json) :=
